@@ -72,7 +72,8 @@ def check(prog: Program, tier: str) -> Result:
     _r17_14(prog, res)
     _r17_15(prog, res)
     _r17_16(prog, res)
-    res.floors.update({"R17.16": 1, "R17.15": 2, "R17.14": 10, "R17.13": 2, "R17.12": 1, "R17.11": 3, "R17.10": 3, "R17.9": 3, "R17.1": 12, "R17.2": 10, "R17.3": 4, "R17.4": 40, "R17.5": 6, "R17.6": 4, "R17.7": 2, "R17.8": 1})
+    _r17_17(prog, res)
+    res.floors.update({"R17.17": 1, "R17.16": 1, "R17.15": 2, "R17.14": 10, "R17.13": 2, "R17.12": 1, "R17.11": 3, "R17.10": 3, "R17.9": 3, "R17.1": 12, "R17.2": 10, "R17.3": 4, "R17.4": 40, "R17.5": 6, "R17.6": 4, "R17.7": 2, "R17.8": 1})
     res.analysed["bound_claims"] = n_claims
     return res
 
@@ -541,6 +542,34 @@ def _reader_obligation(prog: Program, res: Result, fn: Func, sub: ast.Subscript)
     res.decide(single, "R17.1", fn.loc(ctor), fn.fq, f"single-operator restriction for {src}",
                "the comparison is selected by a template with exactly one operator/comparator" if single else
                "no template restricts the negated comparison to a single operator: `a < b < c` would become `a >= b >= c`")
+
+
+# ------------------------------------------------------------------------------------------------ R17.17
+def _r17_17(prog: Program, res: Result) -> None:
+    """A filter condition of a comprehension is replaced by True BECAUSE the rewritten range takes over what it says.  The two
+    rewrites are one change: applied alone (the other one refused - an ignore comment on its line, an overlap with another rule) the
+    comprehension loses its filter and keeps the old range.  Obligation: in a rule generator that yields `<condition>, Constant(True)`
+    next to a rewrite of `<comprehension>.iter`, all of those yields carry the same explicit transaction variable."""
+    n = 0
+    for fn in prog.funcs.values():
+        if fn.mod.name != "symbolic_math" or not fn.is_fix:
+            continue
+        ys = [y for y in walk_own(fn.node) if isinstance(y, ast.Yield) and isinstance(y.value, ast.Tuple) and len(y.value.elts) >= 2]
+        drops = [y for y in ys if isinstance(y.value.elts[1], ast.Call) and norm(y.value.elts[1].func) == "ast.Constant"
+                 and any(k.arg == "value" and isinstance(k.value, ast.Constant) and k.value.value is True for k in y.value.elts[1].keywords)]
+        iters = [y for y in ys if isinstance(y.value.elts[0], ast.Attribute) and y.value.elts[0].attr == "iter"]
+        if not drops or not iters:
+            continue
+        n += 1
+        group = drops + iters
+        ids = {norm(y.value.elts[2]) if len(y.value.elts) == 3 else None for y in group}
+        ok = None not in ids and len(ids) == 1 and all(isinstance(y.value.elts[2], ast.Name) for y in group)
+        res.decide(ok, "R17.17", fn.loc(drops[0]), fn.fq, f"{len(drops)} condition(s) replaced by True, {len(iters)} rewrites of the iterable",
+                   f"one transaction ({next(iter(ids))})" if ok else
+                   "the dropped conditions and the new range are separate transactions: when the range rewrite is refused on its own (an ignore comment on its line) the "
+                   "filter is gone and the old range stays - `[x for x in range(10) if x > 5]` becomes `[x for x in range(10) if True]`")
+    if n == 0:
+        res.undecided("R17.17", "pyrefact/symbolic_math.py:0", "symbolic_math", "conditions absorbed by a range", "no generator yields both (simplify_constrained_range is expected)")
 
 
 # ------------------------------------------------------------------------------------------------ R17.16
@@ -1500,6 +1529,15 @@ def _r17_7(prog: Program, res: Result) -> None:
             if not carried:
                 res.ok("R17.7", fn.loc(loop), fn.fq, head, "every variable the loop modifies is re-initialised before it is read in the same iteration")
             for name, node in sorted(carried.items()):
+                # a transaction counter is MEANT to be carried over: only ever stepped by a constant and only ever used as the transaction
+                # component of a yield - it says nothing about the condition at hand
+                uses = [x for x in ast.walk(loop) if isinstance(x, ast.Name) and x.id == name and isinstance(x.ctx, ast.Load)]
+                stepped = all(isinstance(a, ast.AugAssign) and isinstance(a.op, ast.Add) and isinstance(a.value, ast.Constant)
+                              for a in ast.walk(loop) if isinstance(a, (ast.Assign, ast.AugAssign)) and any(isinstance(t, ast.Name) and t.id == name for t in ast.walk(getattr(a, "target", None) or a.targets[0])))
+                as_id = all(isinstance(parent(u), ast.Tuple) and parent(u).elts[-1] is u and len(parent(u).elts) == 3 and isinstance(parent(parent(u)), ast.Yield) for u in uses)
+                if stepped and as_id and uses:
+                    res.ok("R17.7", fn.loc(node), fn.fq, f"{head}: '{name}'", "a transaction counter: stepped by a constant, used only as the transaction of the yields")
+                    continue
                 res.bad("R17.7", fn.loc(node), fn.fq, f"{head}: '{name}'",
                         f"'{name}' is modified in the loop but read at line {node.lineno} without having been re-initialised in the same iteration: "
                         "what was concluded about one condition is carried over to the next one")
@@ -1814,6 +1852,7 @@ def _run_branch(stmts, state, c, cvar) -> None:
 from ..selftest import Variant  # noqa: E402
 
 VARIANTS = [
+    Variant("dropped-condition-in-a-transaction-of-its-own", "FIRE", "symbolic_math", "            yield condition, ast.Constant(value=True, kind=None), transaction\n", "            yield condition, ast.Constant(value=True, kind=None)\n", "R17.17"),
     Variant("truth-value-fold-for-any-condition", "FIRE", "fixes", "        if _is_boolean_valued(template_match.condition):\n            yield tuple(rewrite)\n", "        if template_match.condition:\n            yield tuple(rewrite)\n", "R17.15"),
     Variant("names-count-as-boolean-valued", "FIRE", "fixes", "    template = (\n        ast.Compare,\n        ast.UnaryOp(op=ast.Not),", "    template = (\n        ast.Compare,\n        ast.Name,\n        ast.UnaryOp(op=ast.Not),", "R17.15"),
     Variant("and-or-boolean-valued-if-one-operand-is", "FIRE", "fixes", "        return all(map(_is_boolean_valued, node.values))", "        return any(map(_is_boolean_valued, node.values))", "R17.15"),
